@@ -1,4 +1,10 @@
-"""C27 Row id allocation never collides or creates ghost rows -- structural clauses."""
+"""C27 Row id allocation never collides or creates ghost rows -- structural clauses.
+
+Roles, not spellings: the *filled list* is the local whose slots are stored inside a loop over
+enumerate() of itself; the *id variable* and *index variable* are that loop's targets; the
+*counter* is whatever is assigned to the id variable / the slot on the replacing paths. The id
+domain is computed by a forward data-flow over the CFG of the loop body (interval domain), so any
+arrangement of the tests (if/elif chain, early continue, swapped arms, nested ifs) is followed."""
 import ast
 from ..fn import World
 from ..index import AnalysisError, dotted
@@ -6,6 +12,7 @@ from ..astutil import text, short, endswith, calls_in
 from ..absdom import IntSet, cond_set, INF
 from ..dataflow import DefUse
 from .. import events as E
+from ._h_F import Res, res_of, call_arg, canon, atoms, is_none
 
 EXPLANATION = (
   "Decides, by interpreting the id-filling loop of doBulkAddOrReplace over an interval domain, "
@@ -22,226 +29,358 @@ MAX_ID = 1000000
 def check(run, repo, tier):
   w = World(repo)
   fn = w.fn("useractions.UserActions.doBulkAddOrReplace")
-  r1_domain(run, w, fn)
-  r2_distinct(run, w, fn)
+  fl = FillLoop(w, fn)
+  r1_domain(run, w, fn, fl)
+  r2_distinct(run, w, fn, fl)
   r3_docaction_assert(run, w)
-  r4_counter(run, w, fn)
+  r4_counter(run, w, fn, fl)
 
 
-def _fill_loop(fn):
-  """The loop `for i, row_id in enumerate(<filled>)` that fills ids; returns (loop, filled var,
-  index var, id var)."""
-  for s in fn.node.body:
-    if isinstance(s, ast.For) and isinstance(s.iter, ast.Call) and \
-        dotted(s.iter.func) == "enumerate" and isinstance(s.target, ast.Tuple) and \
-        len(s.target.elts) == 2 and isinstance(s.iter.args[0], ast.Name):
-      return s, s.iter.args[0].id, s.target.elts[0].id, s.target.elts[1].id
-  raise AnalysisError("doBulkAddOrReplace: id-filling loop not found")
+class FillLoop(object):
+  """The loop `for i, row_id in enumerate(<filled>)` that stores into <filled>[i]."""
+  def __init__(self, w, fn):
+    self.fn = fn
+    self.r = r = res_of(w, fn)
+    cfg = r.cfg
+    found = []
+    for n in cfg.nodes:
+      if n.kind != "for":
+        continue
+      s = n.stmt
+      it = s.iter
+      if not (isinstance(it, ast.Call) and dotted(it.func) == "enumerate" and it.args and
+              isinstance(it.args[0], ast.Name) and isinstance(s.target, ast.Tuple) and
+              len(s.target.elts) == 2 and all(isinstance(x, ast.Name) for x in s.target.elts)):
+        continue
+      lst, iv = it.args[0].id, s.target.elts[0].id
+      inner = {id(x) for st in s.body for x in ast.walk(st)}
+      stores = [m for m in cfg.nodes if m.stmt is not None and id(m.stmt) in inner and
+                isinstance(m.stmt, ast.Assign) and
+                any(isinstance(t, ast.Subscript) and text(t.value) == lst and
+                    text(t.slice) == iv for t in m.stmt.targets)]
+      if stores:
+        found.append((n, lst, iv, s.target.elts[1].id, inner))
+    if len(found) != 1:
+      raise AnalysisError("doBulkAddOrReplace: id-filling loop not found")
+    self.head, self.filled, self.ivar, self.idvar, inner = found[0]
+    self.loop = self.head.stmt
+    self.body = {n.id for n in cfg.nodes if n.stmt is not None and id(n.stmt) in inner}
+    self.slot = "%s[%s]" % (self.filled, self.ivar)
+    self._flow = None
+
+  # ---------------------------------------------------------------- data-flow over the loop body
+  def flow(self):
+    """(accepted, replaced, counter): ids that reach the end of an iteration unchanged, ids whose
+    slot was overwritten by the counter, and the counter's name."""
+    if self._flow is not None:
+      return self._flow
+    r, cfg = self.r, self.r.cfg
+    idvar, slot = self.idvar, self.slot
+    EMPTY = IntSet()
+    # state per node: E explicit (variable and slot unchanged), V variable replaced only,
+    # D slot replaced; approx: some test outside the domain was crossed
+    state = {}
+    counters = set()
+    def join(nid, st):
+      old = state.get(nid)
+      if old is None:
+        state[nid] = st
+        return True
+      new = (old[0].union(st[0]), old[1].union(st[1]), old[2].union(st[2]), old[3] or st[3])
+      if repr(new[:3]) == repr(old[:3]) and new[3] == old[3]:
+        return False
+      state[nid] = new
+      return True
+    work = []
+    for s in cfg.succ[self.head.id]:
+      if s in self.body:
+        join(s, (IntSet.all(), EMPTY, EMPTY, False))
+        work.append(s)
+    end = [EMPTY, EMPTY, EMPTY]
+    guard = 0
+    while work:
+      guard += 1
+      if guard > 5000:
+        raise AnalysisError("fill loop: data-flow did not converge")
+      nid = work.pop()
+      n = cfg.nodes[nid]
+      Ein, Vin, Din, approx = state[nid]
+      outs = []      # (successor, state)
+      if n.kind == "if":
+        t_succ = cfg.if_true.get(nid, set())
+        exc = cfg.if_exc.get(nid, set())
+        f_succ = set(cfg.succ[nid]) - t_succ - exc
+        try:
+          cs = cond_set(n.stmt.test, idvar)
+          Et, Ef, ap = Ein.intersect(cs), Ein.minus(cs), approx
+        except AnalysisError:
+          Et, Ef, ap = Ein, Ein, True
+        for s in t_succ:
+          outs.append((s, (Et, Vin, Din, ap)))
+        for s in f_succ:
+          outs.append((s, (Ef, Vin, Din, ap)))
+      elif n.kind == "raise_stmt":
+        outs = []
+      elif n.kind in ("return", "break"):
+        if not (Ein.empty() and Vin.empty() and Din.empty()):
+          raise AnalysisError("fill loop is left early (%s): not modelled" % n.kind)
+      else:
+        Eo, Vo, Do = Ein, Vin, Din
+        if n.kind == "stmt" and isinstance(n.stmt, (ast.Assign, ast.AugAssign, ast.AnnAssign)):
+          st = n.stmt
+          tgs = [text(t) for t in (st.targets if isinstance(st, ast.Assign) else [st.target])]
+          sets_var, sets_slot = idvar in tgs, slot in tgs
+          if any(t.startswith(self.filled + "[") and t != slot for t in tgs) or \
+              ((sets_var or sets_slot) and not isinstance(st, ast.Assign)):
+            raise AnalysisError("fill loop: store %s not modelled" % short(st))
+          if sets_var or sets_slot:
+            v = st.value
+            is_var = isinstance(v, ast.Name) and v.id == idvar
+            if is_var and sets_slot and not sets_var:
+              # slot := current variable: completes a replacement, keeps an explicit id
+              Do, Vo = Do.union(Vo), EMPTY
+            elif isinstance(v, ast.Name) and not is_var:
+              if approx and not (Ein.empty()):
+                raise AnalysisError("fill loop: a replacing path depends on a condition outside "
+                                    "the interval domain")
+              counters.add(v.id)
+              if sets_slot:
+                Do = Do.union(Eo).union(Vo)
+                Eo, Vo = EMPTY, EMPTY
+              else:
+                Vo = Vo.union(Eo)
+                Eo = EMPTY
+            else:
+              raise AnalysisError("fill loop: id rewritten by %s (not modelled)" % short(st))
+        for s in cfg.succ[nid]:
+          if (nid, s) in cfg.exc_edges:
+            continue
+          outs.append((s, (Eo, Vo, Do, approx)))
+      for (s, st) in outs:
+        if s == self.head.id:
+          end = [end[0].union(st[0]), end[1].union(st[1]), end[2].union(st[2])]
+        elif s in self.body:
+          if join(s, st):
+            work.append(s)
+        elif s in (cfg.raise_exit.id,):
+          pass
+        else:
+          if not (st[0].empty() and st[1].empty() and st[2].empty()):
+            raise AnalysisError("fill loop is left early: not modelled")
+    if not end[1].empty():
+      raise AnalysisError("fill loop: the id variable is replaced on a path that does not store "
+                          "it in the list")
+    if len(counters) > 1:
+      raise AnalysisError("fill loop: more than one replacement source: %s" % sorted(counters))
+    self._flow = (end[0], end[2], (sorted(counters) or [None])[0])
+    return self._flow
 
 
-def r1_domain(run, w, fn):
+def r1_domain(run, w, fn, fl):
   R1 = run.rule("C27-R1", "explicit ids accepted unchanged lie in [1, 1000000]; None/negative ids "
                 "are replaced by the counter", floor=3)
-  loop, filled, ivar, idvar = _fill_loop(fn)
-  # interpret the top-level if/elif chain on the id variable
-  accepted = IntSet.all()
-  replaced = IntSet()
-  counter = None
-  chains = [s for s in loop.body if isinstance(s, ast.If)]
-  if len(chains) != 1:
-    raise AnalysisError("doBulkAddOrReplace: expected one if/elif chain in the fill loop")
-  node = chains[0]
-  remaining = IntSet.all()
-  while True:
-    kind = _branch_kind(node.body, filled, ivar, idvar)
-    try:
-      cs = cond_set(node.test, idvar).intersect(remaining)
-    except AnalysisError:
-      # A condition outside the interval domain (e.g. membership in a run-time set). For a
-      # rejecting branch it is sound to ignore it: the accepted set computed without it is a
-      # superset of the real one. A replacing branch with such a condition cannot be decided.
-      if kind[0] != "raise":
-        raise
-      cs = IntSet()
-    if kind[0] == "raise":
-      accepted = accepted.minus(cs)
-    elif kind[0] == "replace":
-      accepted = accepted.minus(cs)
-      replaced = replaced.union(cs)
-      counter = kind[1]
-    else:
-      raise AnalysisError("fill loop branch neither raises nor replaces the id: %s"
-                          % short(node.test))
-    remaining = remaining.minus(cs)
-    if len(node.orelse) == 1 and isinstance(node.orelse[0], ast.If):
-      node = node.orelse[0]
-      continue
-    if node.orelse:
-      # a final else is the accepting path; it must leave the id as it is
-      for st in node.orelse:
-        for x in ast.walk(st):
-          if isinstance(x, ast.Assign) and any(text(t) in (idvar, "%s[%s]" % (filled, ivar))
-                                               for t in x.targets):
-            raise AnalysisError("fill loop's final else rewrites the id (not modelled)")
-    break
+  accepted, replaced, counter = fl.flow()
   want = IntSet([(1, MAX_ID)])
   run.ob(R1, fn.qualname, "accepted explicit ids = %r" % accepted,
          "ids that pass through unchanged are within [1, %d] (0 is the empty record, larger ids "
-         "are refused)" % MAX_ID, accepted.subset_of(want), fi=fn.fi, node=loop)
+         "are refused)" % MAX_ID, accepted.subset_of(want), fi=fn.fi, node=fl.loop)
   run.ob(R1, fn.qualname, "replaced ids = %r" % replaced,
          "None and every negative id are replaced by an allocated id",
          IntSet([(-INF, -1)], none=True).subset_of(replaced) and
-         replaced.subset_of(IntSet([(-INF, 0)], none=True)), fi=fn.fi, node=loop)
-  run.ob(R1, fn.qualname, "counter variable %s" % counter,
-         "replacement ids come from one counter", counter is not None, fi=fn.fi,
-         nontrivial=False)
+         replaced.subset_of(IntSet([(-INF, 0)], none=True)), fi=fn.fi, node=fl.loop)
+  run.ob(R1, fn.qualname, "counter variable", "replacement ids come from one counter",
+         counter is not None, fi=fn.fi, nontrivial=False)
   return counter
 
 
-def _branch_kind(body, filled, ivar, idvar):
-  if any(isinstance(s, ast.Raise) for s in body) and len(body) == 1:
-    return ("raise",)
-  for s in body:
-    if isinstance(s, ast.Assign):
-      tg = [text(t) for t in s.targets]
-      if "%s[%s]" % (filled, ivar) in tg and idvar in tg and isinstance(s.value, ast.Name):
-        return ("replace", s.value.id)
-  return ("other",)
+def _distinct_atom(filled):
+  """(predicate, want) pairs: tests whose outcome `want` means "no id repeats in <filled>"."""
+  a, b = "len(set(%s))" % filled, "len(%s)" % filled
+  def eq(x, node):
+    return isinstance(x, ast.Compare) and isinstance(x.ops[0], ast.Eq) and \
+        {text(x.left), text(x.comparators[0])} == {a, b}
+  def lt(x, node):
+    if not (isinstance(x, ast.Compare) and len(x.ops) == 1):
+      return False
+    l, op, rr = text(x.left), x.ops[0], text(x.comparators[0])
+    return (isinstance(op, ast.Lt) and (l, rr) == (a, b)) or \
+        (isinstance(op, ast.Gt) and (l, rr) == (b, a))
+  def ge(x, node):
+    if not (isinstance(x, ast.Compare) and len(x.ops) == 1):
+      return False
+    l, op, rr = text(x.left), x.ops[0], text(x.comparators[0])
+    return (isinstance(op, ast.GtE) and (l, rr) == (a, b)) or \
+        (isinstance(op, ast.LtE) and (l, rr) == (b, a))
+  return [(eq, True), (lt, False), (ge, True)]
 
 
-def r2_distinct(run, w, fn):
+def r2_distinct(run, w, fn, fl):
   R2 = run.rule("C27-R2", "a rejecting check on repeated ids dominates the gateway call; the "
                 "action and the return value carry the checked list", floor=3)
-  loop, filled, ivar, idvar = _fill_loop(fn)
-  cfg = fn.cfg
-  checks = set()
-  for n in cfg.nodes:
-    if n.kind != "if":
-      continue
-    t = n.stmt.test
-    if isinstance(t, ast.Compare) and len(t.ops) == 1 and \
-        isinstance(t.ops[0], (ast.NotEq, ast.Lt, ast.Gt)):
-      a, b = text(t.left), text(t.comparators[0])
-      forms = {"len(set(%s))" % filled, "len(%s)" % filled}
-      if {a, b} == forms and any(isinstance(s, ast.Raise) for s in n.stmt.body):
-        if isinstance(t.ops[0], ast.NotEq) or \
-            (isinstance(t.ops[0], ast.Lt) and a.startswith("len(set(")) or \
-            (isinstance(t.ops[0], ast.Gt) and b.startswith("len(set(")):
-          checks.add(n.id)
+  r, cfg = fl.r, fl.r.cfg
+  filled, idvar = fl.filled, fl.idvar
   gw = [(n, c) for (n, c, nm) in fn.calls() if E.is_strict_gateway_call(c, nm, fn)]
   if not gw:
     raise AnalysisError("doBulkAddOrReplace: gateway call not found")
-  # the check comes after the fill loop completed
-  loop_nodes = {n.id for n in cfg.nodes if n.stmt is loop}
-  ok = bool(checks) and all(cfg.dominated_by(n.id, checks) for (n, c) in gw) and \
-      all(cfg.dominated_by(c, loop_nodes) for c in checks) and \
-      not (cfg.reach_after(checks) & loop_nodes)
-  if not checks:
+  # "known distinct" at the gateway: established after the last write to the list on every path
+  ok = all(any(r.known(n.id, p, want) for (p, want) in _distinct_atom(filled)) for (n, c) in gw)
+  if not ok:
     # alternative idiom: a seen-set inside the fill loop, tested on the final id of each position
-    #   if row_id in seen: raise ...   /   seen.add(row_id)      (after the if/elif chain)
-    chain = [st for st in loop.body if isinstance(st, ast.If)]
-    tail = loop.body[loop.body.index(chain[0]) + 1:] if chain else []
-    seen_test = [st for st in tail if isinstance(st, ast.If) and
-                 isinstance(st.test, ast.Compare) and isinstance(st.test.ops[0], ast.In) and
-                 text(st.test.left) == idvar and any(isinstance(b, ast.Raise) for b in st.body)]
-    for st in seen_test:
-      sv = text(st.test.comparators[0])
-      adds = [c for x in tail for c in calls_in(x) if fn.name(c) == sv + ".add" and
-              text(c.args[0]) == idvar]
-      ok = ok or bool(adds)
-  run.ob(R2, fn.qualname, "if len(set(%s)) != len(%s): raise" % (filled, filled),
+    #   if row_id in seen: raise ...   /   seen.add(row_id)      at the end of every iteration
+    adds = [(n, c) for n in cfg.nodes if n.id in fl.body for c in calls_in(n.exprs)
+            if isinstance(c.func, ast.Attribute) and c.func.attr == "add" and
+            isinstance(c.func.value, ast.Name) and len(c.args) == 1 and text(c.args[0]) == idvar]
+    for (n, c) in adds:
+      sv = c.func.value.id
+      def seen_before(x, node):
+        return isinstance(x, ast.Compare) and isinstance(x.ops[0], ast.In) and \
+            text(x.left) == idvar and text(x.comparators[0]) == sv
+      # every iteration that completes records its final id, after testing it
+      first = [s for s in cfg.succ[fl.head.id] if s in fl.body]
+      every = fl.head.id not in cfg.reach(set(first), removed={n.id})
+      final = not (cfg.reach_after({n.id}, removed={fl.head.id}) & r.defs.get(idvar, set()))
+      ok = ok or (every and final and r.known(n.id, seen_before, False))
+  run.ob(R2, fn.qualname, "if len(set(<filled>)) != len(<filled>): raise",
          "requests whose ids repeat (explicitly, or an allocated id meeting a later explicit "
          "one) are rejected before any doc action", ok, fi=fn.fi)
   # the action is built from the checked list, and that list is what is returned
-  du = DefUse(fn)
   for (n, c) in gw:
-    arg = c.args[0]
-    ok = du.flows_from(lambda x: isinstance(x, ast.Call) and len(x.args) >= 2 and
-                       isinstance(x.args[1], ast.Name) and x.args[1].id == filled, arg)
-    if text(arg) == "action":
-      run.ob(R2, fn.qualname, short(c), "the record action is built with the checked id list",
-             ok, fi=fn.fi, node=c)
-  rets = [s for s in ast.walk(fn.node) if isinstance(s, ast.Return)]
-  run.ob(R2, fn.qualname, "return %s" % filled, "the ids returned are the ids given to the "
-         "action", len(rets) == 1 and text(rets[0].value) == filled, fi=fn.fi)
+    arg = call_arg(c, 0, "doc_action")
+    if arg is None:
+      continue
+    v = r.expand(arg, n.id)
+    conv = [x for x in ast.walk(v) if isinstance(x, ast.Call) and
+            endswith(dotted(x.func), "convert_action_values")]
+    if not conv:
+      continue        # extra actions produced by the conversion, not the record action
+    ok = any(isinstance(x, ast.Call) and len(x.args) >= 2 and isinstance(x.args[1], ast.Name) and
+             x.args[1].id == filled for cv in conv for a in cv.args for x in ast.walk(a))
+    run.ob(R2, fn.qualname, "_do_doc_action(<converted ActionType(table_id, <filled>, ...)>)",
+           "the record action is built with the checked id list", ok, fi=fn.fi, node=c)
+  rets = r.returns()
+  run.ob(R2, fn.qualname, "return <filled>", "the ids returned are the ids given to the "
+         "action", bool(rets) and all(text(v) == filled for (n, v) in rets) and
+         not r.falls_off_end() and not r.bare_returns(), fi=fn.fi)
   # nothing rebinds or mutates the list apart from its definition and the fill loop
-  body_nodes = set()
-  inner = set(id(x) for st in loop.body for x in ast.walk(st))
-  for n in cfg.nodes:
-    if n.stmt is not None and id(n.stmt) in inner:
-      body_nodes.add(n.id)
-  firstdef = {n.id for n in cfg.nodes if n.kind == "stmt" and isinstance(n.stmt, ast.Assign) and
-              text(n.stmt.targets[0]) == filled}
-  own = du.defs.get(filled, set()) | du.muts.get(filled, set())
-  extra = own - firstdef - body_nodes
-  run.ob(R2, fn.qualname, "%s written only by its definition and the fill loop" % filled,
-         "the checked list is not changed after the check", not extra and len(firstdef) == 1,
-         fi=fn.fi)
+  firstdef = r.defs.get(filled, set())
+  own = r.defs.get(filled, set()) | r.du.muts.get(filled, set())
+  extra = own - firstdef - fl.body
+  run.ob(R2, fn.qualname, "<filled> written only by its definition and the fill loop",
+         "the checked list is not changed after the check", not extra and len(firstdef) == 1 and
+         not (firstdef & fl.body), fi=fn.fi)
 
 
 def r3_docaction_assert(run, w):
   R3 = run.rule("C27-R3", "DocActions.BulkAddRecord asserts that none of the ids exists before "
                 "its first mutation", floor=1)
   fn = w.fn("docactions.DocActions.BulkAddRecord")
+  r = res_of(w, fn)
   cfg = fn.cfg
   ps = fn.fi.params()
-  asserts = set()
+  checks, loops = set(), set()
   for n in cfg.nodes:
-    if n.kind == "assert":
-      t = n.stmt.test
-      if isinstance(t, ast.Compare) and isinstance(t.ops[0], ast.NotIn) and \
-          endswith(dotted(t.comparators[0]), "row_ids"):
-        # inside a loop over the row_ids parameter
-        for s in ast.walk(fn.node):
-          if isinstance(s, ast.For) and n.stmt in s.body and text(s.iter) == ps[2] and \
-              text(s.target) == text(t.left):
-            asserts.add(n.id)
+    if n.kind not in ("assert", "if"):
+      continue
+    for pol in (True, False):
+      for (a, p) in atoms(n.stmt.test, pol):
+        if not (isinstance(a, ast.Compare) and isinstance(a.ops[0], ast.In) and
+                isinstance(a.comparators[0], ast.Attribute) and
+                a.comparators[0].attr == "row_ids"):
+          continue
+        encl = [l for l in r.enclosing(n.stmt, (ast.For,))
+                if r.norm(l.iter) == ps[2] and text(l.target) == text(a.left)]
+        if not encl:
+          continue
+        if n.kind == "assert":
+          good = pol and not p                     # assert <id> not in <rows>
+        elif p:
+          # the branch on which the id exists must end in a raise
+          t_succ = cfg.if_true.get(n.id, set())
+          branch = t_succ if pol else set(cfg.succ[n.id]) - t_succ - cfg.if_exc.get(n.id, set())
+          heads = {x.id for l in encl for x in r.nodes_of(l)}
+          good = bool(branch) and not (cfg.reach(set(branch)) & (heads | {cfg.exit.id}))
+        else:
+          continue
+        if good:
+          checks.add(n.id)
+          loops |= {x.id for l in encl for x in r.nodes_of(l)}
   muts = E.mutation_nodes(fn) | fn.nodes_calling(E.is_undo_record)
-  loops = {n.id for n in cfg.nodes if n.kind == "for" and text(n.stmt.iter) == ps[2]}
-  ok = bool(asserts) and all(cfg.dominated_by(m, loops) for m in muts) and \
-      not (cfg.reach_after(muts) & asserts)
+  ok = bool(checks) and all(cfg.dominated_by(m, loops) for m in muts) and \
+      not (cfg.reach_after(muts) & checks)
   run.ob(R3, fn.qualname, "for row_id in row_ids: assert row_id not in table.row_ids",
          "an id that already exists fails the action before anything is recorded or written", ok,
          fi=fn.fi)
 
 
-def r4_counter(run, w, fn):
+def r4_counter(run, w, fn, fl):
   R4 = run.rule("C27-R4", "the allocation counter starts above every existing id and is raised "
                 "past every id seen", floor=3)
-  loop, filled, ivar, idvar = _fill_loop(fn)
-  # counter update inside the loop: c = max(c, id) + 1, unconditional (last statement)
-  last = loop.body[-1]
-  counter = None
-  ok = False
-  if isinstance(last, ast.Assign) and isinstance(last.targets[0], ast.Name):
-    counter = last.targets[0].id
-    v = last.value
-    ok = isinstance(v, ast.BinOp) and isinstance(v.op, ast.Add) and \
-        isinstance(v.right, ast.Constant) and v.right.value == 1 and \
-        isinstance(v.left, ast.Call) and dotted(v.left.func) == "max" and \
-        {text(a) for a in v.left.args} == {counter, idvar}
-  run.ob(R4, fn.qualname, short(last), "after every id the counter exceeds that id and never "
-         "decreases", ok, fi=fn.fi, node=last)
-  inits = E.local_defs(fn.node, counter) if counter else []
+  r, cfg = fl.r, fl.r.cfg
+  filled, idvar = fl.filled, fl.idvar
+  accepted, replaced, counter = fl.flow()
+  # counter update inside the loop: c = max(c, id) + 1 on every completed iteration, using the
+  # final id of the position
+  def is_bump(v):
+    if not (isinstance(v, ast.BinOp) and isinstance(v.op, ast.Add)):
+      return False
+    for (m, one) in ((v.left, v.right), (v.right, v.left)):
+      if isinstance(one, ast.Constant) and one.value == 1 and isinstance(m, ast.Call) and \
+          dotted(m.func) == "max" and not m.keywords and \
+          sorted(text(a) for a in m.args) == sorted([counter, idvar]):
+        return True
+    return False
+  upd = [cfg.nodes[d] for d in sorted(r.defs.get(counter, ())) if d in fl.body]
+  ok = bool(upd) and counter is not None
+  for n in upd:
+    v = r._plain_value(n, counter)
+    ok = ok and v is not None and is_bump(v)
+  if ok:
+    first = {s for s in cfg.succ[fl.head.id] if s in fl.body}
+    ids = {n.id for n in upd}
+    every = fl.head.id not in cfg.reach(first, removed=ids)
+    final = not (cfg.reach_after(ids, removed={fl.head.id}) & fl.body &
+                 (r.defs.get(idvar, set()) - {fl.head.id}))
+    ok = every and final
+  run.ob(R4, fn.qualname, "<counter> = max(<counter>, <id>) + 1", "after every id the counter "
+         "exceeds that id and never decreases", ok, fi=fn.fi,
+         node=upd[0].stmt if upd else fl.loop)
+  # initial value, as seen on entry to the loop from outside
   init_ok = False
-  for v in inits:
-    if isinstance(v, ast.IfExp):
-      init_ok = isinstance(v.body, ast.Constant) and v.body.value == 1 and \
-          text(v.test) == "replace" and isinstance(v.orelse, ast.Call) and \
-          endswith(dotted(v.orelse.func), "next_row_id")
-  run.ob(R4, fn.qualname, "%s = 1 if replace else table.next_row_id()" % counter,
+  if counter is not None:
+    outside = [p for p in cfg.pred[fl.head.id] if p not in fl.body]
+    b = r.binding(fl.head.id, counter, after=outside)
+    if b is not None:
+      v = r.expand(b[0], b[1])
+      cs = Res.cases(v)
+      rp = fn.fi.params()[4] if len(fn.fi.params()) > 4 else "replace"
+      table = "self._engine.tables[%s]" % fn.fi.params()[1]
+      init_ok = bool(cs)
+      n_next = 0
+      for (facts, leaf) in cs:
+        if isinstance(leaf, ast.Constant) and leaf.value == 1:
+          init_ok = init_ok and any(text(a) == rp and p for (a, p) in facts)
+        elif isinstance(leaf, ast.Call) and isinstance(leaf.func, ast.Attribute) and \
+            leaf.func.attr == "next_row_id" and not leaf.args and \
+            text(leaf.func.value) == table:
+          n_next += 1
+        else:
+          init_ok = False
+      init_ok = init_ok and n_next >= 1
+  run.ob(R4, fn.qualname, "<counter> = 1 if replace else table.next_row_id()",
          "allocation starts above every existing row (or at 1 when the table is replaced)",
          init_ok, fi=fn.fi)
   nr = w.fn("table.Table.next_row_id")
-  rets = [s for s in ast.walk(nr.node) if isinstance(s, ast.Return)]
-  ok = len(rets) == 1 and text(rets[0].value) == "self.row_ids.max() + 1"
+  e = res_of(w, nr).result_expr()
+  ok = e is not None and text(e) in ("self.row_ids.max() + 1", "1 + self.row_ids.max()")
   run.ob(R4, nr.qualname, "return self.row_ids.max() + 1", "next id is one past the largest "
          "existing id", ok, fi=nr.fi)
   # temp-id map is recorded from the original and the filled lists (C26 relies on it too)
-  ok = any(endswith(nm, "summary.update_new_rows_map") and len(c.args) == 3 and
-           text(c.args[1]) == fn.fi.params()[2] and text(c.args[2]) == filled
+  ok = any(endswith(nm, "summary.update_new_rows_map") and
+           [text(a) for a in c.args] and
+           text(call_arg(c, 1, "temp_row_ids") or c.args[0]) == fn.fi.params()[2] and
+           text(call_arg(c, 2, "final_row_ids") or c.args[0]) == filled
            for (n, c, nm) in fn.calls())
-  run.ob(R4, fn.qualname, "update_new_rows_map(table_id, row_ids, %s)" % filled,
+  run.ob(R4, fn.qualname, "update_new_rows_map(table_id, row_ids, <filled>)",
          "negative placeholders are mapped to the ids actually allocated", ok, fi=fn.fi)
 
 
@@ -260,6 +399,8 @@ VARIANTS = [
    "    if len(set(row_ids)) != len(row_ids):", "C27-R2"),
   ("return-input-ids", U, "    return filled_row_ids\n", "    return row_ids\n", "C27-R2"),
   ("counter-not-raised", U, "      next_row_id = max(next_row_id, row_id) + 1", "      next_row_id = next_row_id + 1", "C27-R4"),
+  ("counter-starts-at-one", U, "    next_row_id = 1 if replace else table.next_row_id()",
+   "    next_row_id = 1 if replace or not row_ids else table.next_row_id()", "C27-R4"),
   ("seen-set-only-explicit-ids", U, """      elif row_id > 1000000:
         raise ValueError("Row ID too high")
       next_row_id = max(next_row_id, row_id) + 1
